@@ -336,8 +336,31 @@ def register(T, repo):
     T.add(FContract(B + 'cur', ghosts=src_ghost, params=buf_params,
                     result=cur_result, pure=True))
 
+    # C02 / C03: the star of a starred macro is the markup character `*`,
+    # never verbatim material that reads `*` -- the only token that
+    # expand_arguments itself consumes is the star it has just looked at in
+    # its local `tok` (same family as the brace / bracket clauses of
+    # arg_buffer)
+    def star_is_markup(A):
+        ex, st = A['$ex'], A['$st']
+        if not (ex.cur_func or '').split('#')[0].endswith(
+                '.expand_arguments'):
+            return True
+        env = st.env
+        while '$caller' in env:
+            env = env['$caller']
+        tok = env.get('tok')
+        if tok is None:
+            return True
+        o = tok.obj if isinstance(tok, Opt) else tok
+        if not isinstance(o, Obj):
+            return True
+        isn = tok.isnone if isinstance(tok, Opt) else False
+        return Or(isn, Not(tm.cls_is(ex, o, 'yalafi.defs.VerbatimToken')))
+
     T.add(FContract(
         B + 'next', ghosts=src_ghost, params=buf_params,
+        requires=[('star-is-markup-not-verbatim-material', star_is_markup)],
         result=cur_result,
         ensures=[('pops-one', lambda A, r: ntok(A) == z3.If(
             zint(A['old']['n']) > 0, zint(A['old']['n']) - 1, 0))],
